@@ -134,4 +134,8 @@ static void h_print_handlers(FILE *out) {
  * Cycles through 0, ENOENT and EILSEQ by case id (a library path that reads errno without having set it
  * itself sees the stale value in two of three runs). */
 #define H_ERRNO_PRE(id) ((id) % 3 == 0 ? 0 : (id) % 3 == 1 ? ENOENT : EILSEQ)
+
+/* the size of the destination object as the library is told it: unknown for even case ids, the true size (bytes) for odd ones
+ * when the destination is a real buffer - the same call must behave the same either way */
+#define H_KBOS(id, valid, bytes) ((((id) & 1) && (valid)) ? (size_t)(bytes) : BOSU)
 #endif
